@@ -296,6 +296,17 @@ func tMatMul(gg *ggraph, rt *rapid.T) bool {
 	b := gg.addInit(f32Init(rt, []int{k, n}, 1, "mmB"))
 	out := cloneInts(a.shape)
 	out[len(out)-1] = n
+	if len(a.shape) != 2 {
+		// input class of the MatMul unit-matrix finding: on the batched path a one-element matrix
+		// (for a single sample when the rows are the batch axis) is refused
+		m1 := a.shape[len(a.shape)-2]
+		if a.batch == len(a.shape)-2 {
+			m1 = 1
+		}
+		if m1*k == 1 || k*n == 1 {
+			gg.feat("matmul-unit-matrix-for-single-sample")
+		}
+	}
 	gg.emit("MatMul", []string{a.name, b.name}, []gv{gg.out(out, a.dt, a.batch)})
 	gg.mixing, gg.weighted = true, true
 	return true
@@ -777,6 +788,9 @@ func tScalerLinReg(gg *ggraph, rt *rapid.T) bool {
 var gTemplates = []gtemplate{tUnary, tBinaryInit, tBinaryValues, tCompareLogic, tGemm, tMatMul, tFlatten, tReshape, tTranspose,
 	tUnsqueezeSqueeze, tConcat, tSoftmax, tReduce, tGather, tShapeCastConst, tConv, tRecurrent, tExpandPRelu, tPRelu, tScalerLinReg}
 
+// gTemplateWeights: indices into gTemplates; the heavier operator families are drawn more often.
+var gTemplateWeights = []int{0, 1, 2, 3, 4, 4, 5, 5, 6, 7, 8, 9, 10, 11, 12, 13, 14, 15, 15, 15, 16, 16, 16, 16, 17, 18, 19}
+
 // genGraph builds a random graph.
 func genGraph(rt *rapid.T, opts ggOpts) *ggraph {
 	gg := &ggraph{opts: opts, initVals: map[string]tensor.Tensor{}, shadowed: map[string]bool{}, feats: map[string]int{},
@@ -805,7 +819,7 @@ func genGraph(rt *rapid.T, opts ggOpts) *ggraph {
 	}
 	n := rapid.IntRange(1, opts.maxNodes).Draw(rt, "nNodes")
 	for len(gg.nodes) < n {
-		k := rapid.IntRange(0, len(gTemplates)-1).Draw(rt, "template")
+		k := rapid.SampledFrom(gTemplateWeights).Draw(rt, "template")
 		if opts.aliasRoutes && rapid.IntRange(0, 2).Draw(rt, "preferAlias") == 0 {
 			k = rapid.SampledFrom([]int{10, 12, 15, 16, 17}).Draw(rt, "aliasTemplate") // Concat, Reduce/ArgMax, Conv, recurrent, Expand
 		}
